@@ -33,6 +33,7 @@
   witnesses that it violates the statements proved here for the repaired code.
 -/
 import EasyMl.Lemmas.RecordContainer
+import EasyMl.Lemmas.RecordContainerTape
 
 namespace EasyMl.C06
 open EasyMl EasyMl.RC
@@ -623,6 +624,76 @@ theorem positions_next_unused (w : World R) :
   · intro op a b c' w' ha hb hok
     rw [bop_container_eq] at hok
     exact (binary_ok_spec a b _ _ _ w ha hb c' w' hok).2.1
+
+/-! ### the tapes stay well formed; derivatives are total (C15: "every derivative set has exactly
+    one entry per tape entry") -/
+
+/-- **Every container operation keeps every tape well formed** (`Tape.WF`, the hypothesis of
+    C04's `reverse_eq_grad` / `sweep_correct`: an entry's parents are earlier entries, or the entry
+    itself with weight zero), lets the tapes only grow (earlier entries and positions are never
+    touched) and puts its result on its tape (`OnTape`: every stored position exists) —
+    `variables`, `reset`, all fifteen one-container and five two-container elementwise operations
+    and both matrix multiplications, for operands that are themselves on their tapes.  So the
+    invariant holds along every history of container operations starting from empty tapes. -/
+theorem tape_invariant (w : World R) (hw : WorldWF w) :
+    (∀ h shape (vals : List R), vals.length = elements shape →
+        Keeps w (Cont.variables h shape vals w).1 (Cont.variables h shape vals w).2)
+      ∧ (∀ c : Cont R, c.WF → Keeps w (c.reset w).1 (c.reset w).2)
+      ∧ (∀ (op : UOp R) (c : Cont R), OnTape w c → Keeps w (op.container c w).1 (op.container c w).2)
+      ∧ (∀ (op : BOp R) (a b c' : Cont R) w', a.WF → b.WF → OnTape w a → OnTape w b →
+          op.container a b w = .ok (c', w') → Keeps w c' w')
+      ∧ (∀ (a b c' : Cont R) w', OnTape w a → OnTape w b →
+          (a.matmulTensor b w = .ok (c', w') ∨ a.matmulMatrix b w = .ok (c', w')) → Keeps w c' w') := by
+  refine ⟨fun h shape vals hl => variables_keeps h shape vals w hw hl,
+    fun c hc => reset_keeps c w hw hc, ?_, ?_, ?_⟩
+  · intro op c hc
+    rw [uop_container_eq]
+    exact unary_keeps c _ _ w hw hc
+  · intro op a b c' w' ha hb hoa hob hok
+    rw [bop_container_eq] at hok
+    exact binary_keeps a b _ _ _ w hw hoa hob ha hb c' w' hok
+  · intro a b c' w' hoa hob hok
+    rcases hok with hok | hok
+    · exact (matmul_keeps a b w hw hoa hob c' w').1 hok
+    · exact (matmul_keeps a b w hw hoa hob c' w').2 hok
+
+/-- the empty tapes are well formed and a constants container is on them -/
+example : WorldWF (World.empty : World ℚ) ∧ OnTape (World.empty : World ℚ) (Cont.constants [("a", 1)] [2]) :=
+  ⟨fun _ => Tape.WF_nil, fun h hh => by simp [Cont.constants] at hh⟩
+
+/-- **`derivatives()` of a variable container is total** on well-formed tapes: it never panics,
+    returns one derivative vector per element (in row-major order), and every vector has exactly
+    one entry per tape entry. -/
+theorem container_derivatives_total (c : Cont R) (w : World R) (h : Nat) (hh : c.history = some h)
+    (hw : WorldWF w) (hc : OnTape w c) :
+    ∃ ds, c.derivatives w = .ok (some ds) ∧ ds.length = c.elems.length
+      ∧ ∀ d ∈ ds, d.length = (w h).length :=
+  derivatives_total c w h hh hw hc
+
+/-! ### user closures that panic -/
+
+/-- **A panicking user closure leaves the tapes of the element-by-element computation so far.**
+    When the function handed to `unary` / `unary_assign` (`binary` / `binary_left_assign` /
+    `binary_right_assign`, `map`) panics at element `k`, the tapes are exactly those the scalar
+    record operator leaves after the first `k` elements (pairs); no container is produced and the
+    operands are not touched (the model's outcome is the tapes alone). -/
+theorem panicking_closure_frame (k : Nat) (w : World R) :
+    (∀ (c : Cont R) (fx dfx : R → R),
+        c.unaryPanicAt fx dfx k w = (Cont.mapRecs (fun r => r.unary fx dfx) (c.toRecs.take k) w).2)
+      ∧ (∀ (a b : Cont R) (f dfx dfy : R → R → R), a.shape = b.shape →
+          areSameList a.history b.history = true →
+          ∃ recs, zipRecs (fun x y => x.binary y f dfx dfy) (a.toRecs.take k) (b.toRecs.take k) w
+            = .ok (recs, a.binaryPanicAt b f dfx dfy k w))
+      ∧ (∀ (c : Cont R) (f : Nat → Rec R → World R → Rec R × World R),
+          c.mapPanicAt f k w = (Cont.mapRecsIdx f 0 (c.toRecs.take k) w).2
+            ∧ (c.mapMutPanicAt f k w).2 = (Cont.mapRecsIdx f 0 (c.toRecs.take k) w).2
+            ∧ (c.mapMutPanicAt f k w).1.elems
+                = ((Cont.mapRecsIdx f 0 (c.toRecs.take k) w).1.map fun r => (r.number, r.index))
+                    ++ c.elems.drop k
+            ∧ (c.mapMutPanicAt f k w).1.history = c.history) :=
+  ⟨fun c fx dfx => unaryPanicAt_eq c fx dfx k w,
+   fun a b f dfx dfy hs hsame => binaryPanicAt_eq a b f dfx dfy k w hs hsame,
+   fun _ _ => ⟨rfl, rfl, rfl, rfl⟩⟩
 
 /-! ### variables of two different tapes (C15, container part) -/
 
